@@ -85,6 +85,11 @@ def choices(toks, gaps, k):
         open_string = last[1] == "str" and (len(last[0]) < 2 or not last[0].endswith('"'))
         return [gaps[k]] if last[1] == "tail" or open_string else [0, 1, 2]
     if wordish(toks[k - 1]) and wordish(toks[k]):
+        # a number directly in front of a keyword needs no blank in Color BASIC (FOR I=1TO 10, X=2ELSE …); a hex literal
+        # only when the keyword cannot continue it
+        a, b = toks[k - 1], toks[k]
+        if b[1] == "word" and (a[1] == "num" or (a[1] == "hex" and b[0][:1] not in "ABCDEF")):
+            return [0, 1, 2]
         return [1, 2] if gaps[k] >= 1 else [gaps[k]]
     return [0, 1, 2]
 
